@@ -32,6 +32,7 @@ type Config struct {
 	CrossSolver []string
 	Pin         map[string]*big.Int // pinned nondet values (translator validation / replay in engine)
 	MaxTimeS    int
+	KeepGoing   bool
 	Params      map[string]int64
 }
 
@@ -575,6 +576,11 @@ func (ex *Explorer) addViolation(v *Violation) {
 	}
 	ex.vioSeen[key] = true
 	ex.Violations = append(ex.Violations, v)
+	if v.Known == "" && !ex.cfg.KeepGoing {
+		// one confirmed counterexample outside the known-finding regions decides the obligation
+		ex.stop = true
+		ex.cond.Broadcast()
+	}
 }
 
 func (in *Interp) reach(label string, c *Term) {
